@@ -21,15 +21,18 @@ REPO = os.environ.get("VERIF_REPO", "/repo")
 
 
 def load_known(prop):
-    path = os.path.join(ROOT, "known_findings.json")
-    if not os.path.exists(path):
-        return {}
-    with open(path) as f:
-        data = json.load(f)
+    """known_findings.json plus known_findings.d/*.json (same format), status == "known" only."""
+    import glob
+    paths = [os.path.join(ROOT, "known_findings.json")] + sorted(glob.glob(os.path.join(ROOT, "known_findings.d", "*.json")))
     out = {}
-    for e in data.get("findings", []):
-        if e.get("property") == prop and e.get("status") == "known":
-            out[e["signature"]] = e
+    for path in paths:
+        if not os.path.exists(path):
+            continue
+        with open(path) as f:
+            data = json.load(f)
+        for e in data.get("findings", []):
+            if e.get("property") == prop and e.get("status") == "known":
+                out[e["signature"]] = e
     return out
 
 
